@@ -126,6 +126,7 @@ This formatter outputs the issues in SARIF formatted JSON.
 
 """  # noqa: E501
 import logging
+import os
 import pathlib
 import sys
 import urllib.parse as urlparse
@@ -373,5 +374,7 @@ def to_uri(file_path):
     else:
         # Replace backslashes with slashes.
         posix_path = pure_path.as_posix()
-        # %-encode special characters.
-        return urlparse.quote(posix_path)
+        # %-encode special characters (the bytes of the name as the file
+        # system has them, like as_uri() above: a name that is not valid
+        # UTF-8 holds lone surrogates, which cannot be encoded otherwise).
+        return urlparse.quote(os.fsencode(posix_path))
